@@ -431,7 +431,7 @@ def search(ctx):
         c = cfgs[i % 4]
         ops = targeted[i] if i < nt else random_history(rng, rng.randrange(3, 14))
         for stack in ("Client", "PooledClient", "HashClient", "Client+aliases", "PooledClient+aliases", "HashClient+aliases"):
-            if stack != "Client" and i % 4 and i >= nt:
+            if stack != "Client" and i % 5 and i >= nt:      # 5 is coprime to the 4 configurations: the wrappers meet all of them
                 continue
             if "+" in stack and not any(o[0] in (1, 7, 8, 10) for o in ops):
                 continue
